@@ -109,7 +109,7 @@ class Screen:
     def text(self): return "\n".join(self.lines())
 
 class Radar:
-    def __init__(self, port, args=(), rows=40, cols=140, cwd=None):
+    def __init__(self, port, args=(), rows=40, cols=140, cwd=None, latlon=(39.0, -77.0)):
         self.rows, self.cols = rows, cols
         self.screen = Screen(rows, cols)
         self.raw = b""
@@ -117,7 +117,7 @@ class Radar:
         if pid == 0:
             os.chdir(cwd or os.path.join(VERIF, ".work"))
             os.environ["TERM"] = "xterm-256color"; os.environ.pop("RUST_LOG", None)
-            os.execv(app("radar"), [app("radar"), "--host=127.0.0.1", "--port=%d" % port, "--lat=39.0", "--long=-77.0", "--log-folder=" + os.path.join(VERIF, ".work", "logs")] + list(args))
+            os.execv(app("radar"), [app("radar"), "--host=127.0.0.1", "--port=%d" % port, "--lat=%s" % latlon[0], "--long=%s" % latlon[1], "--log-folder=" + os.path.join(VERIF, ".work", "logs")] + list(args))
         self.pid, self.fd = pid, fd
         self.resize(rows, cols)
         self.saved = termios.tcgetattr(fd)
